@@ -79,9 +79,9 @@ def prepare(need_bin=True, no_cache=False, log=None):
             return d
         if os.path.isdir(d):
             shutil.rmtree(d)
-        # keep at most two older entries
+        # keep a few older entries (a long-running check may still be using its own while others come and go)
         olds = sorted(glob.glob(os.path.join(CACHE, 'mir-*')), key=os.path.getmtime)
-        for o in olds[:-1]:
+        for o in olds[:-5]:
             shutil.rmtree(o, ignore_errors=True)
         t0 = time.time()
         tmp = d + '.tmp'
